@@ -184,7 +184,7 @@ def run(chk):
 
     # ---- byte-exact correspondence of the extracted plain writer model with the real qpdf
     bx = []
-    for name, data, doc in filecheck.gen_docs(rng, 10 if quick else 150):
+    for name, data, doc in filecheck.gen_docs(rng, 24 if quick else 300):
         p = os.path.join(wd, "bx_" + name + ".pdf")
         open(p, "wb").write(data)
         wmodel.describe(doc, p + ".doc", b"0123456789abcdef" if b"/ID" in data else None)
@@ -210,6 +210,12 @@ def run(chk):
                        "first_cases": bdiff[:3], "note": "qpdf --static-id --object-streams=disable --compress-streams=n --decode-level=none differs byte-wise "
                        "from the extracted writer model while the strict-reader oracle found the outputs equivalent to their inputs"}, no_input=True)
     chk.count("byte-exact-writer-model", len(bx), set(n for n, _ in bx), samples=[{"input": bx[0][1]}])
+    # non-vacuity of the capstone theorem on the tied inputs: how many of these documents satisfy wf_doc_b, the decidable
+    # hypothesis of write_read_strict_b (for those, "read_strict accepts qpdf's output and returns the document" is a theorem
+    # as soon as qpdf's bytes equal the model's)
+    nwf = sum(1 for mo in mres if mo.endswith(" wf"))
+    chk.cov["parts"]["byte-exact-writer-model"]["documents_satisfying_wf_doc_b"] = nwf
+    chk.cov["parts"]["byte-exact-writer-model"]["documents_not_wf_doc_b"] = len(mres) - nwf
 
 
 def replay(chk, rep):
